@@ -132,7 +132,7 @@ static shared_ptr<ProjDataInMemory> histogram(const shared_ptr<Scanner>& sc, con
 
 static long g_cfg_id = 0;
 
-static void run_ssrb(vh::Trace& tr, const Geo& g, const Par& p, const std::vector<Ev>& evs, int variant, const std::string& scratch) {
+static void run_ssrb(vh::Trace& tr, const Geo& g, const Par& p, const std::vector<Ev>& evs, int variant, const std::string& scratch, bool geometry_only = false) {
   shared_ptr<Scanner> sc = vh::make_scanner(g.N, g.R, g.maxT);
   shared_ptr<ProjDataInfo> in = make_info(sc, g);
   shared_ptr<ProjDataInfo> out;
@@ -160,7 +160,7 @@ static void run_ssrb(vh::Trace& tr, const Geo& g, const Par& p, const std::vecto
       j.str("msg", msg);
     tr.emit(j);
   }
-  if (err) { tr.emit(vh::Json("End").boolean("err", false)); return; }
+  if (err || geometry_only) { tr.emit(vh::Json("End").boolean("err", false)); return; }
   {
     std::vector<std::vector<long long>> ee;
     for (auto& e : evs) ee.push_back({ e.d1, e.r1, e.d2, e.r2, e.t, e.n });
@@ -250,6 +250,9 @@ static Geo random_geo(vh::Rng& rng, int stage) {
       sd.push_back({ span, d });
       if (k == 0) sd.push_back({ span, d });
     }
+  // even spans (segment 0 gets span + 1 ring differences): complete segments only
+  for (int span : { 2, 4 })
+    for (int k = 0; span / 2 + k * span <= g.R - 1; ++k) sd.push_back({ span, span / 2 + k * span });
   auto p = rng.pick(sd); g.span = p.first; g.maxDelta = p.second;
   std::vector<int> ms{ 1, 1 };
   for (int m : { 2, 3 }) if ((g.N / 2) % m == 0) ms.push_back(m);
@@ -274,6 +277,8 @@ static std::vector<Par> legal_params(const Geo& g, const ProjDataInfo& in) {
         }
         for (int ms = -1; ms <= maxSeg; ++ms) {
           if (ms >= 0 && ms < sc / 2) continue;
+          // even spans: unequal segments can only be kept or all combined into one
+          if (g.span % 2 == 0 && sc > 1 && ((ms < 0 ? maxSeg : ms) - sc / 2) / sc > 0) continue;
           for (int trim : { 0, 1, 2, -2 }) {
             if (in.get_num_tangential_poss() - trim < 1) continue;
             // the scanner cannot have more tangential positions than this
@@ -299,14 +304,20 @@ static void mode_ssrb(vh::Trace& tr, long runs, int stage, vh::Rng& rng, const s
       const int k = stage ? 12 : 5;
       for (int i = 0; i < k && !ps.empty(); ++i) chosen.push_back(ps[rng.next() % ps.size()]);
     }
+    const size_t nlegal = chosen.size();
     if (run % 6 == 5) {
       // parameters the documentation declares illegal: the info-constructing SSRB must refuse them
       chosen.push_back({ 2, 1, 0, -1, 1 });
       chosen.push_back({ 1, 1, 0, in->get_max_segment_num() + 1, 1 });
       chosen.push_back({ 1, 1, in->get_num_tangential_poss(), -1, 1 });
       if (g.maxT > 0) chosen.push_back({ 1, 1, 0, -1, 0 });
+      // fewer segments allowed than one group needs ("max_in_segment_num_to_process is too small. No output segments")
+      if (in->get_max_segment_num() >= 1) chosen.push_back({ 3, 1, 0, 0, 1 });
+      if (in->get_max_segment_num() >= 2) chosen.push_back({ 5, 1, 0, 1, 1 });
     }
+    size_t idx = 0;
     for (auto& p : chosen) {
+      const bool geometry_only = idx++ >= nlegal;
       const int nev = rng.range(1, stage ? 60 : 40);
       std::vector<Ev> evs = random_events(rng, g, nev);
       int variant = rng.range(0, 3);
@@ -314,7 +325,7 @@ static void mode_ssrb(vh::Trace& tr, long runs, int stage, vh::Rng& rng, const s
       const bool one_tof_bin = g.maxT > 0 && g.tofMash * p.tofComb * 2 > g.maxT;
       if (!scratch.empty() && rng.range(0, 7) == 0 && !one_tof_bin) variant |= 4;
       if (rng.range(0, 5) == 0) variant |= 8;
-      run_ssrb(tr, g, p, evs, variant, scratch);
+      run_ssrb(tr, g, p, evs, variant, scratch, geometry_only);
     }
   }
 }
